@@ -333,9 +333,12 @@ Print Assumptions C17_names_upper_camel.
 (* the tie: entity.go still defines State/EventType/Event through componentName and
    applies no strcase function to a concatenation; Strcase.v models the pinned version *)
 Theorem C17_code_tables :
-  model_run_order = EntityGen.run_order /\ model_suffix_sites = EntityGen.suffix_sites
-  /\ EntityGen.camel_of_concat_sites = 0 /\ model_strcase_calls = EntityGen.strcase_calls
-  /\ model_formats = EntityGen.sprintf_formats /\ model_property_names = EntityGen.property_names
+  model_run_order = EntityGen.run_order
+  /\ same_pairs model_suffix_sites EntityGen.suffix_sites = true
+  /\ EntityGen.camel_of_concat_sites = 0
+  /\ same_pairs model_strcase_calls EntityGen.strcase_calls = true
+  /\ same_pairs model_formats EntityGen.sprintf_formats = true
+  /\ same_pairs model_property_names EntityGen.property_names = true
   /\ EntityGen.entity_name_function = "ToSnake"%string
   /\ EntityGen.strcase_version = "v0.3.0"%string /\ EntityGen.configure_acronym_occurrences = 0.
 Proof.
